@@ -46,6 +46,11 @@ def shards(tier, seed):
     return out
 
 
+CONDITIONS = [(0x70, 6, 0x29, 0x00), (0x70, 6, 0x3F, 0x03), (0x72, 6, 0x3F, 0x05), (0x70, 6, 0x3F, 0x0E), (0x72, 6, 0x28, 0x00), (0x70, 2, 0x04, 0x01), (0x70, 2, 0x3A, 0x00),
+              (0x72, 6, 0x3F, 0x03), (0x70, 5, 0x24, 0x00), (0x70, 5, 0x25, 0x00), (0x72, 4, 0x44, 0x00), (0x70, 6, 0x3F, 0x05), (0x72, 0xB, 0x47, 0x03), (0x70, 3, 0x11, 0x00),
+              (0x70, 6, 0x2A, 0x09), (0x72, 6, 0x29, 0x02)]
+
+
 class FileProxy:
     """file object whose close() really closes and then fails when armed"""
 
@@ -158,6 +163,11 @@ def run_sequence(ctx, w, seq, term, detect, rw, link=False, facade=False):
         ctx.fail("C15:open_raises.%s" % type(e).__name__, "SCSIDevice(%s) raised %s" % (node, e), wit, exc=e)
         return False
     state["original"] = dev._file
+    # the device type an attach stored, any of them (tapes, changers, unknown ones): handles are handled alike for all
+    dtype = (0x00, 0x01, 0x05, 0x08, 0x0E, 0x1F, None, 0x01, 0x02, 0x0D)[(len(seq) * 3 + seq.count("R") + (1 if rw else 0)) % 10]
+    if dtype is not None:
+        dev.devicetype = dtype
+    wit["device_type_stored"] = dtype
     if w.open_modes[-1:] != ["w+b" if rw else "rb"]:
         fail("open_mode", "opened with mode %r" % w.open_modes[-1:])
     dev.opcodes = E.spc
@@ -203,7 +213,10 @@ def run_sequence(ctx, w, seq, term, detect, rw, link=False, facade=False):
             evn = evn.upper()
             if disturbed:
                 nontrivial = True
-            w.status, w.sense = (0, None) if evn == "E" else (2, SN.build(0x70, 0, 6, 0x29, pos, 18))
+            # (the conditions that tempt a transport to act on its own: unit attentions about resets, changed media, changed
+            # inquiry data / identifiers / LUN inventory; not-ready and error conditions; both sense formats)
+            cc = CONDITIONS[(len(seq) * 7 + pos * 3 + seq.count("F") + seq.count("f")) % len(CONDITIONS)]
+            w.status, w.sense = (0, None) if evn in "Ee" else (2, SN.build(cc[0], 0, cc[1], cc[2], cc[3], 18 if cc[0] < 0x72 else 8))
             before = state["reached"]
             armed_close, armed_open = w.fail_next_close, w.fail_next_open
             cmd = TestUnitReady(E.spc.TEST_UNIT_READY)
